@@ -105,6 +105,12 @@ def install(nodehash=None, scratch=True):
     from pyrefact import logs
 
     logs.set_level(100)
+    try:
+        import compactify.logs
+
+        compactify.logs.set_level(100)
+    except Exception:  # noqa: BLE001
+        pass
     functools.lru_cache = _orig_lru_cache
 
 
